@@ -1,15 +1,23 @@
 """Host-side DFU protocol rules over the paths of dfu.cli_main (C18, C19).
 
-cli_main is walked with every module-level helper and local closure inlined (pathwalk inline='all'), so the protocol events are the
-device.ctrl_transfer(...) calls themselves, classified by their folded arguments - however the code is factored into helpers and
-whatever its variables are called.  The quantities the rules talk about are *derived from the events*:
+cli_main is walked with every module-level helper and local closure inlined (pathwalk inline='all'; `sys.exit` / `parser.error`
+end the path; `if t: <calls made for effect only>` does not fork it), so the protocol events are the device.ctrl_transfer(...) calls
+themselves, classified by their folded arguments - however the code is factored into helpers and whatever its variables are called.
+A path ends where it reads a local of cli_main that is unbound on it (page_size for a device that is not a GD32 part).  The
+quantities the rules talk about are *derived from the events*:
 
   S      chunk size        = hi - lo of the slice sent by the data download
   FW     flashed buffer    = the object that slice is taken from
-  N      page count        = argument of range() of the loops that enclose the erase / write requests
-  PAGE   page index        = loop variable of that loop
+  N      page count        = trip count of the loops that enclose the erase / write requests (range, enumerate, a comprehension
+                             or a generator over a range)
+  PAGE   page index        = iteration number of that loop; its variables are polynomials in PAGE
   LEN    raw image length  = len() of the value read from the file (the `res` leaf of FW)
+  Q, R   LEN = Q*S + R     = the Euclidean division of the path (divmod, or // and %), 0 <= R < S, and what its branch conditions
+                             say about R; polynomials are compared in that normal form
   CAP    flash capacity    = LEN - g for the size guard  g > 0 -> refuse
+
+Three-valued throughout: a request field, payload, loop, test or residue that is not read ends without verdict (Undecided /
+Report.undecided), never in a finding and never in a silent pass.
 """
 import ast
 
